@@ -123,7 +123,7 @@ def contexts(tier):
     q = tier == "quick"
     lits = [v for t, v in toklex.LITERALS]
     out = [(Ctx("literals", c02.PRE + ["int", "x", "="], [";"], domain=lits + ["+", ","]), 2 if q else 3)]
-    for c, n in c02.contexts(tier)[:8] + c03.contexts(tier, rare=False) + c05.contexts(tier):
+    for c, n in c02.contexts(tier)[:8] + c03.contexts(tier) + c05.contexts(tier):
         if isinstance(c, PatCtx):
             if "+pragma" in c.name and not c.name.split("@")[0].endswith(("0", "8")):
                 continue
